@@ -57,6 +57,10 @@ KNOWN_SHIFT = ("minimum-cost repair missed: shift neighbour dropped when the par
 KNOWN_NONCONFLUENT = ("reported repair sequence does not repair on a conflict-resolved table: the search continues from a stack "
                       "reduced under the real lookahead, the replay starts from the unreduced stack")
 
+# costs are u16 in the search: a neighbour whose cost would exceed 65535 is skipped (since /repo a91a325; it panicked before),
+# so an error whose cheapest repair costs more is reported without any sequence (C06_search_complete_needs_cost_bound)
+KNOWN_COSTBOUND = "no repair is reported when the cheapest repair costs more than 65535 (costs are u16 in the search)"
+
 BUDGET_MS = 3000          # recovery budget handed to the implementation (hook); parses that use >= 80% are not compared
 CASE_TIMEOUT_MS = 60000   # watchdog per case line
 ONE_TIMEOUT_MS = 9000
@@ -367,6 +371,30 @@ def run(ctx):
                           "reference_sequences": [pretty(r, x) for x in sorted(ref_set)[:6]], "differs": True})
             if len(inp.errors) > len(merrs):
                 ctx.oblige(rest_ok)
+    # ---- the cost bound of the completeness theorems (C06_search_complete_needs_cost_bound), replayed on the implementation:
+    #      S: 'a'; every token costs 255; the error is at the second `a` and the only repair deletes the rest of the input
+    from gen.grammars import Gram
+    cb = Gram(["a"], [("S", [[("t", "a")]])])
+    cbcase = ("costbound", cb, "all255", {"a": 255}, [["a"] * 258, ["a"] * 259])
+    cbl = run_impl(exe, [cbcase])[0]
+    rcb = repair.RepResult("costbound", cb, cb.render(), "all255", {"a": 255}, cbcase[4], cbl, None)
+    if rcb.ok and len(rcb.inputs) == 2 and all(i.errors for i in rcb.inputs):
+        below, above = rcb.inputs[0].errors[0][3], rcb.inputs[1].errors[0][3]
+        ctx.coverage["cost_bound_probe"] = {"cost_65535_sequences": len(below), "cost_65790_sequences": len(above)}
+        ok_below = len(below) == 1 and all(st[0] == "D" for st in below[0]) and len(below[0]) == 257
+        if not ok_below:
+            ctx.violation({"what": "the repair of cost 65535 (delete the 257 remaining lexemes) is not the reported set",
+                           "grammar": rcb.src, "costs": {"a": 255}, "input": "a x 258", "impl_sequences": [" ".join(x)[:200] for x in below[:3]]})
+        ctx.oblige(ok_below, "cost 65535 is still searched")
+        if not above:
+            ctx.violation({"what": "the only repair (delete the 258 remaining lexemes, cost 65790) exists and is not reported: "
+                                   "no sequence at all is reported for the error", "grammar": rcb.src, "costs": {"a": 255},
+                           "input": "a x 259", "error_lexeme": rcb.inputs[1].errors[0][0],
+                           "authority": "C06_search_complete_needs_cost_bound (vm_compute witness on this table)"},
+                          known_key=KNOWN_COSTBOUND)
+        ctx.oblige(True)
+    else:
+        ctx.count("cost_bound_probe_not_run")
     ctx.oblige(mirror_ok, "search mirror reproduces the implementation")
     ctx.count("errors_compared_total", compared)
     ctx.coverage["rule"] = ("corpus first: 4 calculator-like conflict-free grammars (calc, Corchuelo's, sum, sequence) x {no "
